@@ -9,6 +9,7 @@ import drv_angle
 import drv_heap
 import drv_epoch
 import drv_curvefit
+import drv_interp
 
 YMIN, YMAX = -4712, 6000
 
@@ -334,4 +335,37 @@ def plan_C17(tier, seed):
                      "correlation coefficient may exceed 1 in magnitude by at most 1e-12 (one float ulp is not reported)"])
 
 
-PLANS = {"C17": plan_C17, "C02": plan_C02, "C03": plan_C03, "C04": plan_C04, "C10": plan_C10, "C01": plan_C01, "C16": plan_C16, "C19": plan_C19}
+def _nt_c12(ev):
+    k = ev["k"]
+    key = (k, ev["form"], tuple(ev["xin"]), ev["deg"])
+    if k == "eval":
+        return key + (ev["xf"],)
+    if k in ("root", "minmax"):
+        return key + (ev["xlf"], ev["xhf"])
+    if k == "out":
+        return key + (ev["xf"],)
+    return key
+
+
+def plan_C12(tier, seed):
+    T = ("Trace_Interp", "Trace.cfg")
+    nsh, per = (16, 110) if tier == "quick" else (48, 1200)
+    sh = [Shard("itp_%02d" % i, drv_interp.gen_interp, dict(seed=seed, shard=i, n=per), *T) for i in range(nsh)]
+    return dict(
+        mc=[MC("MC_InterpClamp", "MC_InterpClamp.cfg", workers=4, heap="2g",
+               note="effective search interval law on a grid of limits vs table ends")],
+        shards=sh, level="model_checking", exhaustive=False, nontrivial=_nt_c12,
+        rule="Tables of 2-9 points with distinct quarter-grid abscissae in shuffled order (equally/unequally spaced), ordinates from "
+             "a polynomial of degree < n with quarter-grid coefficients (60%), sin/exp/random otherwise; input forms lists, tuples, "
+             "flat arguments, set(), set() on a used object, copy. TLC checks: table held ascending and equal to the supplied "
+             "points, node values, duplicated abscissae and out-of-table arguments refused; value and derivative against the "
+             "generating polynomial evaluated by the spec (1e-9 relative), against the spec's own Newton form for small tables; "
+             "root/minmax on sub-intervals incl. reversed and out-of-table limits: whenever the exact polynomial (or, for smooth "
+             "data, the table itself at node limits) changes sign on the clipped interval the call must return a point inside it "
+             "at which the exact polynomial / derivative is within the object's tolerance. Distinct case = (call, form, table, arguments).",
+        assumptions=["the object's tolerance is set to max(1e-10, 1e-9*max|y|) before root searches so that it is attainable in floating point",
+                     "extremum clauses are asserted for max|y| <= 1000 (minmax uses a fixed 1e-10 tolerance on the derivative)",
+                     "for smooth (non-polynomial) data only the interval clause is asserted, with limits at nodes"])
+
+
+PLANS = {"C12": plan_C12, "C17": plan_C17, "C02": plan_C02, "C03": plan_C03, "C04": plan_C04, "C10": plan_C10, "C01": plan_C01, "C16": plan_C16, "C19": plan_C19}
